@@ -135,7 +135,7 @@ Proof.
   intros [tags lk o] t v H. unfold fm_set_bytes. cbn [fm_lookup fm_tags fm_ord].
   pose proof (fm_rep_store tags lk o t) as S. unfold lk_has in S.
   destruct (lk_get lk t) as [f|] eqn:E.
-  - apply (S (tv_init t v, snd f) H).
+  - apply (S (tv_init t v, []) H).
   - apply (S (tv_init t v, []) H).
 Qed.
 
